@@ -602,7 +602,8 @@ Proof.
   - apply andb_true_iff in Hwf. destruct Hwf as [Hwo Hwr].
     destruct (c_dead c) eqn:Ed.
     + destruct (run_ops c r) as [c2 out2] eqn:E. intros H. inversion H; subst.
-      apply (IH _ _ _ Hwr Hb HG E).
+      pose proof (run_dead _ _ _ _ Ed E). subst c'.
+      split; [exact Hb|]. rewrite Ed. discriminate.
     + destruct (step c o) as [c1 evs] eqn:Es.
       destruct (run_ops c1 r) as [c2 out2] eqn:E. intros H. inversion H; subst.
       destruct (step_post _ _ _ _ (HG eq_refl) Hb Hwo Es) as [B P].
@@ -615,7 +616,7 @@ Theorem no_bug_reachable isw maxs ops :
   c_bug (fst (run_ops (init_conn isw maxs) ops)) = false.
 Proof.
   intros Hc Hw. destruct (run_ops (init_conn isw maxs) ops) as [c' out] eqn:E. simpl.
-  apply (run_ops_inv _ _ _ _ Hw eq_refl (fun _ => init_good _ _ Hc) E).
+  apply (run_ops_inv ops (init_conn isw maxs) c' out Hw eq_refl (fun _ => init_good _ _ Hc) E).
 Qed.
 
 (* the same through the wire functions: the model never reports a serve-loop panic *)
@@ -642,7 +643,7 @@ Lemma reach_good c : reach c -> c_dead c = false -> Good c /\ c_bug c = false.
 Proof.
   intros [isw [maxs [ops [Hc [Hw ->]]]]] Hd.
   destruct (run_ops (init_conn isw maxs) ops) as [c' out] eqn:E. simpl in *.
-  destruct (run_ops_inv _ _ _ _ Hw eq_refl (fun _ => init_good _ _ Hc) E) as [B G].
+  destruct (run_ops_inv ops (init_conn isw maxs) c' out Hw eq_refl (fun _ => init_good _ _ Hc) E) as [B G].
   split; [apply G; exact Hd|exact B].
 Qed.
 
@@ -718,7 +719,7 @@ Proof.
   apply andb_true_iff in Eo. destruct Eo as [Eo1 _].
   pose proof (find_live_some _ _ _ Ef) as [Ef' _].
   pose proof (find_some _ _ _ Ef') as [_ Hsid]. rewrite <- Hsid in Ef'.
-  pose proof (Good_st _ _ _ HG Ef') as [_ [H1 _]]. destruct (H1 ltac:(lia)) as [Hbody _].
+  pose proof (Good_st _ _ _ HG Ef') as [_ [Hopen _]]. destruct (Hopen ltac:(lia)) as [Hbody _].
   intros HS. unfold data_open in HS. rewrite Hbody in HS. simpl in HS.
   assert (EL : (0 <? frame_len dlen pad) = true) by (pose proof (Good_inflow_le _ HG); lia).
   assert (EC : (c_inflow c <? frame_len dlen pad) = true) by lia.
@@ -803,4 +804,429 @@ Proof.
       split; [left; subst e2; apply in_or_app; right; left; reflexivity|exact D]. }
   destruct (find_live id (c_streams c)) as [st|] eqn:Ef; [|apply Hc].
   rewrite (Hno st eq_refl). apply Hc.
+Qed.
+
+(* ---------- how a step can end: the connection continues, or GOAWAY, or close; never a panic event ---------- *)
+Definition clean_end (evs : list evt) : Prop :=
+  (exists last code, evs = [(4, last, code)]) \/ evs = [(5, 0, 0)].
+
+Ltac crush := repeat match goal with
+  | |- context [if ?b then _ else _] => destruct b
+  | |- context [match ?x with _ => _ end] => destruct x
+  end.
+
+Lemma close_dead c st c' : close_stream c st = Some c' -> c_dead c' = c_dead c /\ c_bug c' = c_bug c.
+Proof. unfold close_stream. destruct (s_state st =? 3); [discriminate|]. intros H; inversion H; subst; simpl; auto. Qed.
+
+Lemma do_reset_dead c id code pre c' evs :
+  do_reset c id code pre = (c', evs) -> c_bug c' = false -> c_dead c' = c_dead c.
+Proof.
+  unfold do_reset. destruct (find_live id (c_streams c)); [|intros H; inversion H; subst; auto].
+  destruct (close_stream c s) eqn:E.
+  - intros H; inversion H; subst. intros _. apply (close_dead _ _ _ E).
+  - intros H; inversion H; subst. simpl. discriminate.
+Qed.
+
+Ltac leaf :=
+  let H := fresh "H" in let Hb := fresh "Hb" in
+  intros H Hb; first
+  [ left; apply do_reset_dead in H; [simpl in H; exact H | exact Hb]
+  | inversion H; subst; simpl in *;
+    first [ discriminate | left; reflexivity | right; right; reflexivity | right; left; do 2 eexists; reflexivity ] ].
+
+Definition ends_ok (c c' : conn) (evs : list evt) : Prop := c_dead c' = c_dead c \/ clean_end evs.
+
+Lemma data_closed_end c id L c' evs :
+  data_closed c id L = (c', evs) -> c_bug c' = false -> ends_ok c c' evs.
+Proof. unfold data_closed, ends_ok, clean_end. crush; leaf. Qed.
+
+Lemma data_open_end c st dlen L es c' evs :
+  data_open c st dlen L es = (c', evs) -> c_bug c' = false -> ends_ok c c' evs.
+Proof. unfold data_open, finish_data, ends_ok, clean_end. crush; leaf. Qed.
+
+Lemma step_data_end c id dlen pad es c' evs :
+  step_data c id dlen pad es = (c', evs) -> c_bug c' = false -> ends_ok c c' evs.
+Proof.
+  unfold step_data. destruct (id =? 0).
+  - unfold ends_ok, clean_end. leaf.
+  - destruct (find_live id (c_streams c)); [destruct (_ && _)|];
+      first [apply data_open_end | apply data_closed_end].
+Qed.
+
+Lemma step_headers_end c id es kind clen c' evs :
+  step_headers c id es kind clen = (c', evs) -> c_bug c' = false -> ends_ok c c' evs.
+Proof. unfold step_headers, ends_ok, clean_end. crush; leaf. Qed.
+
+Lemma step_rst_end c id c' evs :
+  step_rst c id = (c', evs) -> c_bug c' = false -> ends_ok c c' evs.
+Proof.
+  unfold step_rst, ends_ok, clean_end. destruct (id =? 0); [leaf|].
+  destruct (find_live id (c_streams c)).
+  - destruct (close_stream c s) eqn:E; [|leaf].
+    intros H _. inversion H; subst. left. apply (close_dead _ _ _ E).
+  - destruct (c_max c <? id); leaf.
+Qed.
+
+Lemma step_read_end c id k c' evs :
+  step_read c id k = (c', evs) -> c_bug c' = false -> ends_ok c c' evs.
+Proof. unfold step_read, ends_ok, clean_end. crush; leaf. Qed.
+
+Lemma step_closebody_end c id c' evs :
+  step_closebody c id = (c', evs) -> c_bug c' = false -> ends_ok c c' evs.
+Proof. unfold step_closebody, ends_ok, clean_end. crush; leaf. Qed.
+
+Lemma step_finish_end c id c' evs :
+  step_finish c id = (c', evs) -> c_bug c' = false -> ends_ok c c' evs.
+Proof.
+  unfold step_finish, ends_ok, clean_end.
+  destruct (find_stream id (c_streams c)); [|leaf].
+  destruct (negb (s_run s)); [leaf|]. destruct (s_state s =? 3); [leaf|].
+  destruct (close_stream _ _) eqn:E; [|leaf].
+  intros H _. inversion H; subst. left. destruct (close_dead _ _ _ E) as [D _]. exact D.
+Qed.
+
+Theorem step_end c o c' evs :
+  step c o = (c', evs) -> c_bug c' = false -> ends_ok c c' evs.
+Proof.
+  destruct o; simpl.
+  - apply step_headers_end. - apply step_data_end. - apply step_rst_end.
+  - unfold ends_ok; leaf. - unfold ends_ok; leaf.
+  - apply step_read_end. - apply step_closebody_end. - apply step_finish_end.
+  - unfold ends_ok, clean_end; leaf.
+Qed.
+
+Definition evt_ok (e : evt) : Prop := fst (fst e) <> 5 \/ e = (5, 0, 0).
+
+Lemma do_reset_evs c id code pre c' evs :
+  do_reset c id code pre = (c', evs) -> c_bug c' = false -> evs = pre ++ [(2, id, code)].
+Proof.
+  unfold do_reset. destruct (find_live id (c_streams c)); [destruct (close_stream c s)|];
+    intros H Hb; inversion H; subst; simpl in *; try discriminate; reflexivity.
+Qed.
+
+Ltac inlist :=
+  let e := fresh "e" in let Hin := fresh "Hin" in
+  intros e Hin; simpl in Hin;
+  repeat (destruct Hin as [<- | Hin]; [first [left; simpl; discriminate | right; reflexivity] | ]);
+  try contradiction.
+
+Ltac leaf2 :=
+  let H := fresh "H" in let Hb := fresh "Hb" in
+  intros H Hb; first
+  [ apply do_reset_evs in H; [subst; unfold wu_evt; crush; inlist | exact Hb]
+  | inversion H; subst; simpl in *; first [ discriminate | unfold wu_evt; crush; inlist ] ].
+
+Lemma data_closed_evs c id L c' evs :
+  data_closed c id L = (c', evs) -> c_bug c' = false -> forall e, In e evs -> evt_ok e.
+Proof. unfold data_closed, evt_ok. crush; leaf2. Qed.
+
+Lemma data_open_evs c st dlen L es c' evs :
+  data_open c st dlen L es = (c', evs) -> c_bug c' = false -> forall e, In e evs -> evt_ok e.
+Proof. unfold data_open, finish_data, evt_ok. crush; leaf2. Qed.
+
+Lemma step_evs c o c' evs :
+  step c o = (c', evs) -> c_bug c' = false -> forall e, In e evs -> evt_ok e.
+Proof.
+  destruct o; simpl.
+  - unfold step_headers, evt_ok. crush; leaf2.
+  - unfold step_data. destruct (id =? 0); [unfold evt_ok; leaf2|].
+    destruct (find_live id (c_streams c)); [destruct (_ && _)|];
+      first [apply data_open_evs | apply data_closed_evs].
+  - unfold step_rst, evt_ok. crush; leaf2.
+  - unfold evt_ok; leaf2.
+  - unfold evt_ok; leaf2.
+  - unfold step_read, evt_ok. crush; leaf2.
+  - unfold step_closebody, evt_ok. crush; leaf2.
+  - unfold step_finish, evt_ok. crush; leaf2.
+  - unfold evt_ok; leaf2.
+Qed.
+
+(* C35: one step from a good state: no panic; the connection stays as it was (alive) or the step's
+   only event is GOAWAY or a plain close; no event reports a serve-loop panic *)
+Theorem step_alive_or_clean_end c o c' evs :
+  Good c -> c_bug c = false -> wf_op o = true -> step c o = (c', evs) ->
+  c_bug c' = false /\ (c_dead c' = c_dead c \/ clean_end evs) /\ (forall e, In e evs -> evt_ok e).
+Proof.
+  intros HG Hb Hwf Hs. destruct (step_post _ _ _ _ HG Hb Hwf Hs) as [B _].
+  split; [exact B|]. split; [apply (step_end _ _ _ _ Hs B)|apply (step_evs _ _ _ _ Hs B)].
+Qed.
+
+Lemma run_events_ok ops : forall c c' out,
+  forallb wf_op ops = true -> c_bug c = false -> (c_dead c = false -> Good c) ->
+  run_ops c ops = (c', out) -> forall evs, In evs out -> forall e, In e evs -> evt_ok e.
+Proof.
+  induction ops as [|o r IH]; simpl; intros c c' out Hwf Hb HG.
+  - intros H. inversion H; subst. intros evs [].
+  - apply andb_true_iff in Hwf. destruct Hwf as [Hwo Hwr].
+    destruct (c_dead c) eqn:Ed.
+    + destruct (run_ops c r) as [c2 out2] eqn:E. intros H. inversion H; subst.
+      assert (HG' : c_dead c = false -> Good c) by (rewrite Ed; discriminate).
+      intros evs [<-|Hin]; [intros e []|]. apply (IH _ _ _ Hwr Hb HG' E evs Hin).
+    + destruct (step c o) as [c1 evs1] eqn:Es.
+      destruct (run_ops c1 r) as [c2 out2] eqn:E. intros H. inversion H; subst.
+      destruct (step_post _ _ _ _ (HG eq_refl) Hb Hwo Es) as [B P].
+      intros evs [<-|Hin]; [apply (step_evs _ _ _ _ Es B)|].
+      apply (IH _ _ _ Hwr B (fun d => proj1 (P d)) E evs Hin).
+Qed.
+
+Theorem no_panic_event isw maxs ops :
+  wf_cfg isw maxs = true -> forallb wf_op ops = true ->
+  forall evs, In evs (snd (run_ops (init_conn isw maxs) ops)) -> forall e, In e evs -> evt_ok e.
+Proof.
+  intros Hc Hw. destruct (run_ops (init_conn isw maxs) ops) as [c' out] eqn:E. simpl.
+  apply (run_events_ok ops (init_conn isw maxs) c' out Hw eq_refl (fun _ => init_good _ _ Hc) E).
+Qed.
+
+(* ---------- curOpenStreams ---------- *)
+(* curOpenStreams really is the number of streams in sc.streams *)
+Definition lv (st : stream) : Z := if s_state st =? 3 then 0 else 1.
+Definition nlive (l : list stream) : Z := fold_right (fun st a => lv st + a) 0 l.
+Definition Cur (c : conn) : Prop := c_cur c = nlive (c_streams c).
+
+Lemma nlive_upd l st st' :
+  find_stream (s_id st') l = Some st -> nlive (upd_stream st' l) = nlive l - lv st + lv st'.
+Proof.
+  induction l as [|x r IH]; simpl; [discriminate|].
+  destruct (s_id x =? s_id st') eqn:E; intros H.
+  - inversion H; subst. simpl. lia.
+  - simpl. rewrite (IH H). lia.
+Qed.
+
+Lemma cur_set c st st' mx f d b p cur adv isw :
+  Cur c -> find_stream (s_id st') (c_streams c) = Some st -> cur = c_cur c - lv st + lv st' ->
+  Cur (mkC mx (upd_stream st' (c_streams c)) cur adv f isw d b p).
+Proof. unfold Cur; simpl. intros H Hf ->. rewrite (nlive_upd _ _ _ Hf). lia. Qed.
+
+Lemma cur_close c st c' :
+  Cur c -> find_stream (s_id st) (c_streams c) = Some st -> close_stream c st = Some c' -> Cur c'.
+Proof.
+  intros HC Hf. unfold close_stream. destruct (s_state st =? 3) eqn:E; [discriminate|].
+  intros H. inversion H; subst; clear H.
+  apply (cur_set c st); [exact HC|exact Hf|]. unfold lv; simpl. rewrite E. lia.
+Qed.
+
+Lemma do_reset_cur c id code pre c' evs :
+  Cur c -> do_reset c id code pre = (c', evs) -> c_bug c' = false -> Cur c'.
+Proof.
+  intros HC. unfold do_reset. destruct (find_live id (c_streams c)) as [st|] eqn:Ef.
+  - apply find_live_some in Ef. destruct Ef as [Ef _].
+    pose proof (find_some _ _ _ Ef) as [_ Hid]. rewrite <- Hid in Ef.
+    destruct (close_stream c st) eqn:Ec.
+    + intros H _. inversion H; subst. apply (cur_close _ _ _ HC Ef Ec).
+    + intros H Hb. inversion H; subst. simpl in Hb. discriminate.
+  - intros H _. inversion H; subst. exact HC.
+Qed.
+
+(* an update that keeps the stream in (or out of) the map, followed by a reset *)
+Lemma reset_after_upd_cur c st st1 f id code pre c' evs :
+  Cur c -> find_stream (s_id st1) (c_streams c) = Some st -> lv st1 = lv st ->
+  do_reset (upd (set_cinflow c f) st1) id code pre = (c', evs) -> c_bug c' = false -> Cur c'.
+Proof.
+  intros HC Hf Hl. apply do_reset_cur. unfold upd, set_streams, set_cinflow; simpl.
+  apply (cur_set c st); [exact HC|exact Hf|lia].
+Qed.
+Lemma reset_after_upd_cur' c st st1 id code pre c' evs :
+  Cur c -> find_stream (s_id st1) (c_streams c) = Some st -> lv st1 = lv st ->
+  do_reset (upd c st1) id code pre = (c', evs) -> c_bug c' = false -> Cur c'.
+Proof.
+  intros HC Hf Hl. apply do_reset_cur. unfold upd, set_streams; simpl.
+  apply (cur_set c st); [exact HC|exact Hf|lia].
+Qed.
+
+Lemma cur_inflow c f : Cur c -> Cur (set_cinflow c f).
+Proof. unfold Cur; simpl; auto. Qed.
+
+Lemma data_closed_cur c id L c' evs :
+  Cur c -> data_closed c id L = (c', evs) -> c_bug c' = false -> Cur c'.
+Proof.
+  intros HC. unfold data_closed.
+  destruct (c_inflow c <? L); [apply do_reset_cur; exact HC|].
+  destruct (flow_take_conn (c_inflow c) L); [|intros H Hb; inversion H; subst; discriminate].
+  destruct (send_wu z L) as [[f2 inc]|]; [|intros H Hb; inversion H; subst; discriminate].
+  apply do_reset_cur. apply cur_inflow. exact HC.
+Qed.
+
+Ltac bugleaf := let H := fresh in let Hb := fresh in intros H Hb; inversion H; subst; simpl in Hb; discriminate.
+
+Lemma data_open_cur c st dlen L es c' evs :
+  Cur c -> find_stream (s_id st) (c_streams c) = Some st -> s_state st = 1 ->
+  data_open c st dlen L es = (c', evs) -> c_bug c' = false -> Cur c'.
+Proof.
+  intros HC Hf Hs. unfold data_open.
+  assert (Hlv : lv st = 1) by (unfold lv; rewrite Hs; reflexivity).
+  assert (Hfin : forall cc st2 evs0, s_id st2 = s_id st -> s_state st2 = 1 -> c_cur cc = c_cur c -> c_streams cc = c_streams c ->
+            finish_data cc st2 es evs0 = (c', evs) -> c_bug c' = false -> Cur c').
+  { intros cc st2 evs0 Hid2 Hs2 Hcur Hstr. unfold finish_data. destruct es.
+    - unfold end_stream. destruct (negb (s_body st2)); [bugleaf|].
+      intros H _. inversion H; subst. unfold upd, set_streams. destruct cc; simpl in *. subst.
+      apply (cur_set c st); [exact HC|simpl; rewrite Hid2; exact Hf|unfold lv; simpl; rewrite Hs; simpl; lia].
+    - intros H _. inversion H; subst. unfold upd, set_streams. destruct cc; simpl in *. subst.
+      apply (cur_set c st); [exact HC|rewrite Hid2; exact Hf|unfold lv; rewrite Hs, Hs2; simpl; lia]. }
+  destruct (negb (s_body st)); [bugleaf|].
+  destruct (negb (s_decl st =? -1) && (s_decl st <? s_bytes st + dlen)).
+  { destruct (c_inflow c <? L); [apply do_reset_cur; exact HC|].
+    destruct (flow_take_conn (c_inflow c) L); [|bugleaf].
+    destruct (send_wu z L) as [[f2 inc]|]; [|bugleaf].
+    apply (reset_after_upd_cur c st); [exact HC|exact Hf|reflexivity]. }
+  destruct (0 <? L).
+  2:{ apply (Hfin c st); auto. }
+  destruct (flow_available (s_inflow st) (c_inflow c) <? L); [apply do_reset_cur; exact HC|].
+  destruct (flow_take_stream (s_inflow st) (c_inflow c) L) as [[sf cf]|]; [|bugleaf].
+  destruct ((0 <? dlen) && (negb (s_perr st =? 0) || s_rel st)).
+  { destruct (send_wu cf L) as [[cf2 inc]|]; [|bugleaf].
+    apply (reset_after_upd_cur c st); [exact HC|exact Hf|reflexivity]. }
+  destruct ((0 <? dlen) && (c_isw c <? s_buf st + dlen)).
+  { destruct (send_wu cf L) as [[cf2 inc]|]; [|bugleaf].
+    apply (reset_after_upd_cur c st); [exact HC|exact Hf|reflexivity]. }
+  destruct (send_wu (c_inflow (set_cinflow c cf)) (L - dlen)) as [[cf2 i1]|]; [|bugleaf].
+  destruct (send_wu _ (L - dlen)) as [[sf2 i2]|]; [|bugleaf].
+  destruct (0 <? dlen); apply Hfin; simpl; auto.
+Qed.
+
+Lemma step_data_cur c id dlen pad es c' evs :
+  Cur c -> step_data c id dlen pad es = (c', evs) -> c_bug c' = false -> c_dead c' = false -> Cur c'.
+Proof.
+  intros HC. unfold step_data. destruct (id =? 0).
+  { intros H _ Hd. inversion H; subst. simpl in Hd. discriminate. }
+  destruct (find_live id (c_streams c)) as [st|] eqn:Ef.
+  - apply find_live_some in Ef. destruct Ef as [Ef _].
+    pose proof (find_some _ _ _ Ef) as [_ Hid]. rewrite <- Hid in Ef.
+    destruct ((s_state st =? 1) && negb (s_trailer st)) eqn:Eo.
+    + apply andb_true_iff in Eo. destruct Eo as [Eo _].
+      intros H Hb _. apply (data_open_cur _ _ _ _ _ _ _ HC Ef ltac:(lia) H Hb).
+    + intros H Hb _. apply (data_closed_cur _ _ _ _ _ HC H Hb).
+  - intros H Hb _. apply (data_closed_cur _ _ _ _ _ HC H Hb).
+Qed.
+
+Lemma step_rst_cur c id c' evs :
+  Cur c -> step_rst c id = (c', evs) -> c_bug c' = false -> c_dead c' = false -> Cur c'.
+Proof.
+  intros HC. unfold step_rst. destruct (id =? 0).
+  { intros H _ Hd. inversion H; subst. simpl in Hd. discriminate. }
+  destruct (find_live id (c_streams c)) as [st|] eqn:Ef.
+  - apply find_live_some in Ef. destruct Ef as [Ef _].
+    pose proof (find_some _ _ _ Ef) as [_ Hid]. rewrite <- Hid in Ef.
+    destruct (close_stream c st) eqn:Ec.
+    + intros H _ _. inversion H; subst. apply (cur_close _ _ _ HC Ef Ec).
+    + intros H Hb. inversion H; subst. simpl in Hb. discriminate.
+  - destruct (c_max c <? id); intros H _ Hd; inversion H; subst; [simpl in Hd; discriminate|exact HC].
+Qed.
+
+Lemma step_read_cur c id k c' evs :
+  Cur c -> step_read c id k = (c', evs) -> c_bug c' = false -> Cur c'.
+Proof.
+  intros HC. unfold step_read.
+  destruct (find_stream id (c_streams c)) as [st|] eqn:Ef; [|intros H _; inversion H; subst; exact HC].
+  pose proof (find_some _ _ _ Ef) as [_ Hid]. rewrite <- Hid in Ef.
+  destruct (negb (s_run st)); [intros H _; inversion H; subst; exact HC|].
+  destruct (negb (s_body st)); [intros H _; inversion H; subst; exact HC|].
+  destruct (negb (s_rel st) && (0 <? s_buf st)); [|intros H _; inversion H; subst; exact HC].
+  destruct (send_wu (c_inflow c) _) as [[cf i1]|]; [|bugleaf].
+  destruct (s_state st =? 1).
+  - destruct (send_wu (s_inflow st) _) as [[sf i2]|]; [|bugleaf].
+    intros H _. inversion H; subst. unfold upd, set_streams, set_cinflow; simpl.
+    apply (cur_set c st); [exact HC|exact Ef|unfold lv; simpl; lia].
+  - intros H _. inversion H; subst. unfold upd, set_streams, set_cinflow; simpl.
+    apply (cur_set c st); [exact HC|exact Ef|unfold lv; simpl; lia].
+Qed.
+
+Lemma step_closebody_cur c id c' evs :
+  Cur c -> step_closebody c id = (c', evs) -> Cur c'.
+Proof.
+  intros HC. unfold step_closebody.
+  destruct (find_stream id (c_streams c)) as [st|] eqn:Ef; [|intros H; inversion H; subst; exact HC].
+  pose proof (find_some _ _ _ Ef) as [_ Hid]. rewrite <- Hid in Ef.
+  destruct (negb (s_run st)); [intros H; inversion H; subst; exact HC|].
+  destruct (s_body st); intros H; inversion H; subst; [|exact HC].
+  unfold upd, set_streams; simpl. apply (cur_set c st); [exact HC|exact Ef|unfold lv; simpl; lia].
+Qed.
+
+Lemma step_finish_cur c id c' evs :
+  Cur c -> step_finish c id = (c', evs) -> c_bug c' = false -> Cur c'.
+Proof.
+  intros HC. unfold step_finish.
+  destruct (find_stream id (c_streams c)) as [st|] eqn:Ef; [|intros H _; inversion H; subst; exact HC].
+  pose proof (find_some _ _ _ Ef) as [_ Hid]. rewrite <- Hid in Ef.
+  destruct (negb (s_run st)); [intros H _; inversion H; subst; exact HC|].
+  assert (HC1 : Cur (upd c (set_run st false))).
+  { unfold upd, set_streams. apply (cur_set c st); [exact HC|exact Ef|unfold lv; simpl; lia]. }
+  destruct (s_state st =? 3); [intros H _; inversion H; subst; exact HC1|].
+  destruct (close_stream _ _) eqn:Ec; [|bugleaf].
+  intros H _. inversion H; subst.
+  apply (cur_close _ _ _ HC1) in Ec; [exact Ec|].
+  simpl. apply (find_upd _ _ st); [exact Ef|reflexivity].
+Qed.
+
+Lemma step_headers_cur c id es kind clen c' evs :
+  Cur c -> step_headers c id es kind clen = (c', evs) -> c_bug c' = false -> c_dead c' = false -> Cur c'.
+Proof.
+  intros HC. unfold step_headers.
+  destruct (negb (id mod 2 =? 1)).
+  { intros H _ Hd. inversion H; subst. simpl in Hd. discriminate. }
+  destruct (find_live id (c_streams c)) as [st|] eqn:Ef.
+  - apply find_live_some in Ef. destruct Ef as [Ef Hn3].
+    pose proof (find_some _ _ _ Ef) as [_ Hid]. rewrite <- Hid in Ef.
+    destruct (s_state st =? 2); [intros H Hb _; apply (do_reset_cur _ _ _ _ _ _ HC H Hb)|].
+    destruct (s_trailer st).
+    { intros H _ Hd. inversion H; subst. simpl in Hd. discriminate. }
+    destruct (negb es); [intros H Hb _; apply (reset_after_upd_cur' c st (set_trailer st) _ _ _ _ _ HC Ef eq_refl H Hb)|].
+    destruct (negb (kind =? 1)); [intros H Hb _; apply (reset_after_upd_cur' c st (set_trailer st) _ _ _ _ _ HC Ef eq_refl H Hb)|].
+    unfold end_stream. destruct (negb (s_body (set_trailer st))); [intros H Hb; inversion H; subst; simpl in Hb; discriminate|].
+    intros H _ _. inversion H; subst. unfold upd, set_streams; simpl.
+    apply (cur_set c st); [exact HC|exact Ef|]. unfold lv; simpl.
+    destruct (s_state st =? 3) eqn:E3; lia.
+  - destruct (id <=? c_max c).
+    { intros H _ Hd. inversion H; subst. simpl in Hd. discriminate. }
+    match goal with |- context [closeconn ?x] => set (c1 := x) end.
+    destruct (c_adv c <? c_cur c1).
+    { intros H _ Hd. inversion H; subst. simpl in Hd. discriminate. }
+    assert (E3 : ((if es then 2 else 1) =? 3) = false) by (destruct es; reflexivity).
+    assert (HC1 : Cur c1).
+    { unfold Cur, c1; simpl. unfold lv; simpl. rewrite E3. unfold Cur in HC. lia. }
+    destruct ((kind =? 1) || (kind =? 2) && negb es).
+    + intros H Hb _. apply (do_reset_cur _ _ _ _ _ _ HC1 H Hb).
+    + intros H _ _. inversion H; subst. unfold upd, set_streams, c1; simpl. rewrite Z.eqb_refl.
+      unfold Cur; simpl. unfold lv; simpl. rewrite E3. unfold Cur in HC. lia.
+Qed.
+
+Theorem step_cur c o c' evs :
+  Cur c -> step c o = (c', evs) -> c_bug c' = false -> c_dead c' = false -> Cur c'.
+Proof.
+  intros HC. destruct o; simpl.
+  - apply step_headers_cur; exact HC.
+  - apply step_data_cur; exact HC.
+  - apply step_rst_cur; exact HC.
+  - intros H _ _. inversion H; subst. exact HC.
+  - intros H _ _. inversion H; subst. exact HC.
+  - intros H Hb _. apply (step_read_cur _ _ _ _ _ HC H Hb).
+  - intros H _ _. apply (step_closebody_cur _ _ _ _ HC H).
+  - intros H Hb _. apply (step_finish_cur _ _ _ _ HC H Hb).
+  - intros H _ Hd. inversion H; subst. simpl in Hd. discriminate.
+Qed.
+
+Lemma run_ops_cur ops : forall c c' out,
+  forallb wf_op ops = true -> c_bug c = false -> (c_dead c = false -> Good c /\ Cur c) ->
+  run_ops c ops = (c', out) -> c_dead c' = false -> Cur c'.
+Proof.
+  induction ops as [|o r IH]; simpl; intros c c' out Hwf Hb HG.
+  - intros H Hd. inversion H; subst. apply (HG Hd).
+  - apply andb_true_iff in Hwf. destruct Hwf as [Hwo Hwr].
+    destruct (c_dead c) eqn:Ed.
+    + destruct (run_ops c r) as [c2 out2] eqn:E. intros H Hd. inversion H; subst.
+      pose proof (run_dead _ _ _ _ Ed E). subst c'. congruence.
+    + destruct (HG eq_refl) as [G0 C0].
+      destruct (step c o) as [c1 evs] eqn:Es.
+      destruct (run_ops c1 r) as [c2 out2] eqn:E. intros H Hd. inversion H; subst.
+      destruct (step_post _ _ _ _ G0 Hb Hwo Es) as [B P].
+      apply (IH _ _ _ Hwr B) in E; [exact E| |exact Hd].
+      intros d. split; [apply (P d)|apply (step_cur _ _ _ _ C0 Es B d)].
+Qed.
+
+(* C35: in every reachable live state curOpenStreams = number of streams that are not closed *)
+Theorem cur_counts_live_streams c : reach c -> c_dead c = false -> c_cur c = nlive (c_streams c).
+Proof.
+  intros [isw [maxs [ops [Hc [Hw ->]]]]] Hd.
+  destruct (run_ops (init_conn isw maxs) ops) as [c' out] eqn:E. simpl in *.
+  apply (run_ops_cur ops (init_conn isw maxs) c' out Hw eq_refl); [|exact E|exact Hd].
+  intros _. split; [apply init_good; exact Hc|reflexivity].
 Qed.
